@@ -38,6 +38,10 @@ CLAIMED = {
  'C15': dict(engine = 'symx', technique = 'symbolic execution of real tree_items/items_to_tree/tree_update/tree_getitem/table_to_tree/tree_to_table with z3: tree shapes chosen by symbolic selectors, leaf contents symbolic; counterexample replay',
              text = 'For every tree of depth <= 2 (thorough 3) and width <= 2 and every pair (t, u) of such trees (overlaps, leaf-vs-branch conflicts, ignore lists) the solver decides flatten/rebuild inversion, key/value projections, tree_getitem on every path, tree_update == recursive-merge oracle, identities, Dict + dict, and that neither t nor u changes at any depth (same leaf objects); table_to_tree/tree_to_table inversion for 6 patterns with 1..4 wildcards.',
              note = 'Trusted: z3, CPython, proxies. Shapes are enumerated through solver-chosen selectors (a fork per shape), leaves are None / symbolic ints / 2-element lists; keys from {a,b,c}; tables of <= 2 rows.'),
+
+ 'C16': dict(engine = 'symx', technique = 'CrossHair (z3-backed symbolic execution) for ulist, symx symbolic execution with z3 for dictattr/Dict key algebra and Dict.__call__ dependency graphs; counterexample replay',
+             text = 'ulist construction, + | - & against an ordered-set oracle are "Confirmed over all paths" by CrossHair for all int lists of length <= 3 per side; d - keys, d & keys, d[keys], d[k1,k2], d + other, relabel, attribute access, class preservation and operand immutability are decided for every mapping over a 4-key pool with symbolic values; Dict.__call__ for every dependency graph on 3 (thorough 4) derived keys in every keyword order, incl. cycles and redefinitions.',
+             note = 'Trusted: CrossHair 0.0.110, z3, CPython, proxies. Statement says up to 6 derived keys; 3 quick / 4 thorough are explored. ulist elements are ints.'),
 }
 NA = {}
 TODO = 'check not built yet in this session (work in progress); will be decided by symbolic execution of the real code as described in DESIGN.md'
@@ -58,7 +62,7 @@ man = dict(version = 1, setup_cmd = 'sh setup.sh',
                         baseline_off_cmd = 'cd /repo && /venv/bin/python -m pytest -ra -q -p no:cacheprovider --timeout=900 --continue-on-collection-errors',
                         source_commits = [], add_only = True),
            engines = [dict(name = 'symx', path = 'vf/symx', serves_properties = sorted(k for k, v in CLAIMED.items() if v['engine'] == 'symx'), kind_free_text = SYMX),
-                      dict(name = 'chx', path = 'vf/chx.py', serves_properties = sorted(k for k, v in CLAIMED.items() if v['engine'] == 'chx'), kind_free_text = 'CrossHair 0.0.110 (symbolic execution of Python with z3), one process per obligation, counterexamples replayed')],
+                      dict(name = 'chx', path = 'vf/chx.py', serves_properties = sorted(k for k, v in CLAIMED.items() if k in ('C16', 'C18', 'C19')), kind_free_text = 'CrossHair 0.0.110 (symbolic execution of Python with z3), one process per obligation, counterexamples replayed')],
            checks = checks, not_applicable = na,
            notes = 'Exit codes of bin/check: 0 nothing violated (see evidence for proved / inconclusive counts), 1 reproduced violation (VIOLATION line), 2 harness error (no verdict). Known findings: known_findings.txt.')
 json.dump(man, open(os.path.join(ROOT, 'MANIFEST.json'), 'w'), indent = 1)
